@@ -11,7 +11,7 @@ Inductive atom : Set :=
   | AOptsNone | AScopeNone | AInCache | ACtxDisabled | AArtifact | APartial
   | ABuiltin | AIsEval | AIsSuper | AIsGlobals | AIsLocals | AKwTruthy | AKwNotNone
   | AUnsupported | AUserRequested | AAllowlisted | AInternalConvert
-  | AIsMethod | AIsFunction | ASelfNotNone | AHasClass | AClassHasCall
+  | AIsMethod | AIsFunction | ASelfNotNone | ASelfTruthy | AHasClass | AClassHasCall
   | ATargetHasCode | ACodeHasFilename | AFilenameString
   | AConvRaises | AStrict
   (* _call_unconverted *)
